@@ -302,7 +302,9 @@ Definition reply_len (ncookies idLen cookieLen : Z) : Z :=
 Record exch := {
   e_ke_ok : bool;     (* if a key exchange is needed: does it succeed *)
   e_ok : bool;        (* request reaches the server, is accepted, and the authenticated reply reaches the client *)
-  e_skip : nat        (* cookies the servers issue to other clients (or in replies that get lost) before this call *)
+  e_skip : nat;       (* cookies the servers issue to other clients (or in replies that get lost) before this call *)
+  e_nosend : bool     (* the call ends after FetchData, before a request leaves (deadline passed, the key
+                         exchange named a server that is not an IP address): the cookie taken is gone, nothing is sent *)
 }.
 
 Record sys (C : Type) := {
@@ -315,11 +317,12 @@ Arguments s_pool {C}. Arguments s_next {C}. Arguments s_sent {C}. Arguments Buil
 Definition issue_n {C} (issue : nat -> C) (from n : nat) : list C := map issue (seq from n).
 
 (* the request/reply part of one call, the pool p being what FetchData returned *)
-Definition sys_exchange {C} (issue : nat -> C) (cookieLen : Z) (p : list C) (nx : nat) (sent : list C) (ok : bool)
+Definition sys_exchange {C} (issue : nat -> C) (cookieLen : Z) (p : list C) (nx : nat) (sent : list C) (ok nosend : bool)
   (dflt : sys C) : sys C :=
   match p with
   | [] => dflt
   | c :: rest =>
+      if nosend then {| s_pool := rest; s_next := nx; s_sent := sent |} else
       let np := Z.max 0 (num_placeholders (zlen p) 32 cookieLen) in
       if ok then
         let requested := Z.to_nat (1 + np) in
@@ -336,9 +339,9 @@ Definition sys_step {C} (issue : nat -> C) (cookieLen : Z) (s : sys C) (o : exch
   match s_pool s with
   | [] =>
       if e_ke_ok o
-      then sys_exchange issue cookieLen (issue_n issue nx keCookies) (nx + keCookies)%nat (s_sent s) (e_ok o) s
+      then sys_exchange issue cookieLen (issue_n issue nx keCookies) (nx + keCookies)%nat (s_sent s) (e_ok o) (e_nosend o) s
       else {| s_pool := []; s_next := nx; s_sent := s_sent s |}
-  | p => sys_exchange issue cookieLen p nx (s_sent s) (e_ok o) s
+  | p => sys_exchange issue cookieLen p nx (s_sent s) (e_ok o) (e_nosend o) s
   end.
 
 Definition sys0 {C} : sys C := {| s_pool := []; s_next := O; s_sent := [] |}.
